@@ -34,6 +34,12 @@ var (
 )
 
 func report(kind string, in []byte, detail string) {
+	if run == nil {
+		if vlib.FuzzFail != nil {
+			vlib.FuzzFail(kind + ": " + detail)
+		}
+		return
+	}
 	kindMu.Lock()
 	kindSeen[kind]++
 	n := kindSeen[kind]
@@ -275,6 +281,17 @@ func main() {
 				}
 			}
 		})
+		// native fuzzing as an additional input generator (thorough tier): failing inputs are re-run through
+		// the deterministic oracle above, which is what reports them
+		if !r.Quick() {
+			inputs, execs, ok := vlib.GoFuzz("checks/c18", "FuzzReadImports", 60*time.Second)
+			r.Set("native_fuzzing", map[string]any{"target": "FuzzReadImports", "ran": ok, "last_progress_line": execs, "failing_inputs": len(inputs)})
+			for _, args := range inputs {
+				if len(args) == 1 {
+					checkInput(args[0])
+				}
+			}
+		}
 		r.Set("valid_files", atomic.LoadInt64(&nValid))
 		r.Set("valid_files_with_imports", atomic.LoadInt64(&nWithImports))
 		r.Set("valid_files_with_bom", atomic.LoadInt64(&nBOM))
